@@ -145,6 +145,9 @@ def _dyn_item(interp, item_layout, path, idx, nframes, is_track):
     o.__class__ = DynTrack
     klass = SPECS[item_layout].klass(interp)
     o.dyn_isinstance = lambda cls: (is_track if cls is klass else (False if not klass.is_subclass(cls) else is_track))
+    # an arbitrary object: a track is truthy; what is not a track may be anything, None / 0 / "" / [] included
+    falsy = z3.Function(f"{path}.is_falsy", *([I] * len(idx)), B)(*[zint(i) for i in idx]) if idx else z3.Const(f"{path}.is_falsy", B)
+    o.py_truth = lambda interp: Or(is_track, Not(falsy))
     return o
 
 
